@@ -72,6 +72,12 @@ def make_content(rec):
         while len(out) < size:
             out += rnd.choice(words) + b" "
         return bytes(out[:size])
+    if kind == "sparse-tail":
+        # a whole number of 8 KiB I/O buffers whose last ones are all zero: decompression ends with a pending hole that xz
+        # materialises at close time by seeking and writing one final zero byte (file_io.c, io_close)
+        m = max(2, size // 8192)
+        a = rnd.randrange(0, m)
+        return rnd.randbytes(8192 * a) + bytes(8192 * (m - a))
     # "sparse": runs of zero bytes (multiples of the 8 KiB I/O buffer and odd ones) between data runs
     out = bytearray()
     zero = rnd.random() < 0.5
@@ -870,7 +876,7 @@ def _scenario(draw):
         size = draw(st.sampled_from(SIZES))
         if 8193 < size < 204800:
             size += draw(st.integers(0, 4999))
-        contents.append({"kind": draw(st.sampled_from(["random", "text", "sparse"])), "size": size, "seed": draw(st.integers(0, 2**31 - 1))})
+        contents.append({"kind": draw(st.sampled_from(["random", "text", "sparse", "sparse-tail"])), "size": size, "seed": draw(st.integers(0, 2**31 - 1))})
     damage = None
     if mode == "decompress" and draw(st.sampled_from([False, False, True])):
         if stdout:
@@ -909,7 +915,7 @@ def fixed_scenarios(S, tier, seed):
     import random
     r = random.Random(seed * 7919 + 17)
     out = []
-    for mode, threads, kinds in (("compress", 1, ["random", "random"]), ("compress", 4, ["random", "text"]), ("decompress", 1, ["random", "text"]), ("compress", 1, ["text", "sparse"])):
+    for mode, threads, kinds in (("compress", 1, ["random", "random"]), ("compress", 4, ["random", "text"]), ("decompress", 1, ["random", "text"]), ("compress", 1, ["text", "sparse"]), ("decompress", 1, ["sparse-tail", "text"])):
         contents = [{"kind": k, "size": r.choice([16385, 40000, 50000, 30000]) + r.randrange(0, 3000), "seed": r.randrange(0, 2**31 - 1)} for k in kinds]
         if mode == "compress" and kinds[0] == "random":
             contents[0]["size"] = r.choice([204800, 262144, 180000]) + r.randrange(0, 3000)  # incompressible and long: output fills up while the coder still holds input
